@@ -62,6 +62,13 @@ func genCtx(r *Rng, tier string, n int, emit func(string)) {
 
 func ctxTok(k int) string     { return "t" + itoa(k) + "z" }
 func ctxStatus(k int) int     { return 200 + k%57 }
+
+// ctxIPOfTok: the client address the test resolver reports for the request carrying token tok ("t<k>z")
+func ctxIPOfTok(tok string) *net.IPAddr {
+	k, _ := strconv.Atoi(strings.TrimSuffix(strings.TrimPrefix(tok, "t"), "z"))
+	return &net.IPAddr{IP: net.IPv4(10, byte(k>>16), byte(k>>8), byte(k))}
+}
+
 func ctxBodySize(k int) int   { return 1 + k%5 }
 func ctxBody(k int) []byte    { return []byte(strings.Repeat("b", ctxBodySize(k))) }
 func ctxHostFor(k int) string { return "x" + ctxTok(k) + ".test" }
@@ -150,6 +157,13 @@ func (p *ctxProbe) checkAll(c fox.Context, tok, method, host, path string, wantS
 	}
 	if got := c.QueryParam("q"); got != tok {
 		p.fail("QueryParam(q)=%q want %q", got, tok)
+	}
+	// the resolver derives the address from a header of the CURRENT request; asked twice (a memoised answer must belong
+	// to this request too)
+	for i := 0; i < 2; i++ {
+		if ip, err := c.ClientIP(); err != nil || ip == nil || ip.String() != ctxIPOfTok(tok).String() {
+			p.fail("ClientIP()=%v,%v want %s", ip, err, ctxIPOfTok(tok))
+		}
 	}
 	if got := c.QueryParams().Get("q"); got != tok {
 		p.fail("QueryParams().Get(q)=%q want %q", got, tok)
@@ -303,7 +317,10 @@ func ctxRequest(p *ctxProbe, k int, method, path string) *http.Request {
 }
 
 func newCtxRun() (*ctxRun, error) {
-	r, err := fox.New(fox.WithNoMethod(true), fox.WithAutoOptions(true), fox.WithMiddleware(ctxChecker))
+	r, err := fox.New(fox.WithNoMethod(true), fox.WithAutoOptions(true), fox.WithMiddleware(ctxChecker),
+		fox.WithClientIPResolver(fox.ClientIPResolverFunc(func(c fox.Context) (*net.IPAddr, error) {
+			return ctxIPOfTok(c.Header("X-Tok")), nil
+		})))
 	if err != nil {
 		return nil, err
 	}
